@@ -327,9 +327,10 @@ VERIF_HARNESS(c17_s3_registration) {
 
 /* ---- B1o: the observe-subscription file (coap_op_observe_added / coap_op_observe_deleted), crash at any point ------------------
  * records: subscription key, protocol, listening address, session address tuple, request packet, "no OSCORE data" marker.
- * Keys are opaque to these functions (compared and copied, never dereferenced): two fixed non-null values. */
-#define KEY_A ((coap_subscription_t *)(uintptr_t)0x1000)
-#define KEY_B ((coap_subscription_t *)(uintptr_t)0x2000)
+ * Keys are opaque to these functions (compared and copied, never dereferenced). */
+static coap_subscription_t o_sub_a, o_sub_b;   /* (addresses of real objects: CBMC constant-folds their byte round trip through the file, not that of integer-cast pointers) */
+#define KEY_A (&o_sub_a)
+#define KEY_B (&o_sub_b)
 static coap_address_t o_listen;
 static coap_addr_tuple_t o_tuple_a, o_tuple_b;
 static size_t
